@@ -94,12 +94,14 @@ func TestC13Completeness(t *testing.T) {
 		streamed := map[digest.Digest]serveSpec{}
 		unreadable := map[digest.Digest]bool{}
 		fault := ""
+		var faultDigest digest.Digest
 		if ntrees > 0 && g.n(0, 3, "fault") == 3 {
 			kind := rapid.SampledFrom(faultKinds).Draw(t, "fault/kind")
 			tb := trees[g.n(0, ntrees-1, "fault/tree")]
 			code := faultCodes[g.n(0, len(faultCodes)-1, "fault/code")]
 			g.applyFault(tb, kind, streamed, unreadable, status.Error(code, "injected read failure"))
 			fault = tb.fault
+			faultDigest = g.toDigest(tb.digest)
 		}
 		ar := g.genActionResult(trees, ndirs)
 		arBytes := mustMarshal(ar)
@@ -154,6 +156,16 @@ func TestC13Completeness(t *testing.T) {
 			}
 		}
 
+		// How the CAS turns stored bytes into buffers: with the buffer
+		// constructors directly, or through the real read-buffer factory.
+		serve := rapid.SampledFrom([]string{"direct", "factory", "factory"}).Draw(t, "serve")
+		var via map[digest.Digest]viaSpec
+		var factory blobstore.ReadBufferFactory
+		if serve == "factory" {
+			factory = blobstore.CASReadBufferFactory
+			via = g.drawVia(streamed)
+		}
+
 		batch := g.n(1, 5, "batch")
 		maxTotal := int64(1 << 20)
 		switch g.n(0, 19, "limit") {
@@ -168,7 +180,7 @@ func TestC13Completeness(t *testing.T) {
 		case 19:
 			maxTotal = 0
 		}
-		srv := &casServer{Mem: mem, streamed: streamed}
+		srv := &casServer{Mem: mem, streamed: streamed, factory: factory, via: via}
 		var inner blobstore.BlobAccess = srv
 		var faulty *backends.Faulty
 		faultAt, faultCode := -1, codes.OK
@@ -183,10 +195,13 @@ func TestC13Completeness(t *testing.T) {
 		acDigest := g.toDigest(g.protoDigest([]byte(fmt.Sprintf("action-%d", g.n(0, 3, "action")))))
 		acMem.Set(acDigest, arBytes)
 		acMode := g.n(0, 2, "acmode")
-		c.Add(g.instance, int(g.fn), arBytes, batch, maxTotal, faultAt, int(faultCode), fault, int(kf), acMode)
+		c.Add(g.instance, int(g.fn), arBytes, batch, maxTotal, faultAt, int(faultCode), fault, int(kf), acMode, serve)
 		for _, d := range g.order {
 			if s, ok := streamed[d]; ok {
 				c.Add(d.String(), s.chunks[0], s.eofWithData, s.failAfter)
+			}
+			if v, ok := via[d]; ok && g.isTree[d] {
+				c.Add(d.String(), v.method, v.sizeFromDigest, v.eofAtEnd)
 			}
 		}
 
@@ -199,7 +214,7 @@ func TestC13Completeness(t *testing.T) {
 		}
 		describe := func() string {
 			var sb strings.Builder
-			fmt.Fprintf(&sb, "  instance=%q fn=%s batch=%d max_total_tree_size=%d cas_fault_at=%d tree_fault=%q malformed=%q\n", g.instance, g.fn, batch, maxTotal, faultAt, fault, g.malformDone)
+			fmt.Fprintf(&sb, "  instance=%q fn=%s batch=%d max_total_tree_size=%d cas_fault_at=%d tree_fault=%q malformed=%q cas_serves=%s\n", g.instance, g.fn, batch, maxTotal, faultAt, fault, g.malformDone, serve)
 			fmt.Fprintf(&sb, "  action result: %s\n", renderAR(arBytes))
 			for _, d := range g.order {
 				state := "present"
@@ -209,6 +224,9 @@ func TestC13Completeness(t *testing.T) {
 				what := ""
 				if g.isTree[d] {
 					what = " tree=" + renderTree(g.universe[d])
+					if v, ok := via[d]; ok {
+						what = fmt.Sprintf(" via CASReadBufferFactory/%s(size_from_digest=%v) stored_bytes=%d%s", v.method, v.sizeFromDigest, len(g.universe[d]), what)
+					}
 				}
 				fmt.Fprintf(&sb, "  cas %s %s refs=%v%s\n", d, state, final.refs[d], what)
 			}
@@ -275,6 +293,41 @@ func TestC13Completeness(t *testing.T) {
 		for _, r := range srv.readers {
 			c.ClassIf(r.Closes.Load() != 1, "tree_reader_not_closed_exactly_once")
 		}
+		// The serving mode, and serving mode x Tree fault.
+		c.Class("serve_" + serve)
+		if serve == "factory" {
+			methods := map[string]bool{}
+			for _, d := range g.order {
+				if g.isTree[d] {
+					methods[via[d].method] = true
+				}
+			}
+			for _, m := range []string{"readerat", "reader", "slice"} {
+				c.ClassIf(methods[m], "factory_tree_via_"+m)
+			}
+			for _, r := range srv.readerAts {
+				c.ClassIf(r.Closes.Load() != 1, "tree_readerat_not_closed_exactly_once")
+				c.ClassIf(r.Closes.Load() == 1, "tree_readerat_closed_exactly_once")
+				c.ClassIf(r.Reads.Load() > 0 && via[r.Digest].sizeFromDigest, "factory_readerat_read_size_from_digest")
+				c.ClassIf(r.Reads.Load() > 0 && !via[r.Digest].sizeFromDigest, "factory_readerat_read_size_of_stored_bytes")
+			}
+			c.ClassIf(srv.integrityBad.Load() > 0, "factory_integrity_callback_reported_corruption")
+			c.ClassIf(srv.integrityOK.Load() > 0, "factory_integrity_callback_reported_intact")
+		}
+		if fault != "" {
+			kind := strings.SplitN(fault, "@", 2)[0]
+			how := "direct"
+			if serve == "factory" {
+				how = "factory_" + via[faultDigest].method
+			}
+			c.Class(how + "_x_" + kind)
+			fetched := false
+			for _, call := range sp.log.Snapshot() {
+				fetched = fetched || (call.Op == "Get" && len(call.Digests) == 1 && call.Digests[0] == faultDigest)
+			}
+			c.ClassIf(fetched && how == "factory_readerat", how+"_x_"+kind+"_fetched")
+			c.ClassIf(fetched && how == "factory_readerat" && len(final.treeBad) > 0, "factory_readerat_damaged_tree_fetched")
+		}
 		c.Sample(func() string {
 			return fmt.Sprintf("ar=%s batch=%d limit=%d tree_fault=%q missing=%v malformed=%v -> %s (%v)", renderAR(arBytes), batch, maxTotal, fault, final.missing, final.malformed, outcome, gerr)
 		})
@@ -321,13 +374,25 @@ func TestC13EachPosition(t *testing.T) {
 				c.Add(streamed[d].chunks[0])
 			}
 		}
+		serve := rapid.SampledFrom([]string{"direct", "factory"}).Draw(t, "serve")
+		var via map[digest.Digest]viaSpec
+		var factory blobstore.ReadBufferFactory
+		if serve == "factory" {
+			factory = blobstore.CASReadBufferFactory
+			via = g.drawVia(streamed)
+			for _, d := range g.order {
+				if g.isTree[d] {
+					c.Add(d.String(), via[d].method, via[d].sizeFromDigest, via[d].eofAtEnd)
+				}
+			}
+		}
 		acMem := backends.NewMem("ac", digest.KeyWithInstance)
 		acDigest := g.toDigest(g.protoDigest([]byte("action")))
 		acMem.Set(acDigest, arBytes)
-		c.Add(g.instance, int(g.fn), arBytes, batch)
+		c.Add(g.instance, int(g.fn), arBytes, batch, serve)
 
 		run := func(removed string) (*verdict, string) {
-			srv := &casServer{Mem: mem, streamed: streamed}
+			srv := &casServer{Mem: mem, streamed: streamed, factory: factory, via: via}
 			sp := newSpy(srv)
 			v, err := referenceWalk(g.instance, g.fn, arBytes, mem, nil)
 			if err != nil {
@@ -361,6 +426,12 @@ func TestC13EachPosition(t *testing.T) {
 			c.ClassIf(kinds[k], "removed_"+k)
 		}
 		recEach.Count("objects_removed_in_turn", int64(len(full.refOrder)))
+		c.Class("serve_" + serve)
+		for _, d := range g.order {
+			if serve == "factory" && g.isTree[d] {
+				c.Class("factory_tree_via_" + via[d].method)
+			}
+		}
 		c.ClassIf(len(full.refOrder) == 0, "nothing_referenced")
 		if len(full.refOrder) > 0 {
 			c.NonTrivial()
